@@ -4,9 +4,11 @@ import vlib
 
 BACKENDS = {"dense": 0, "full": 1, "eq": 2, "ineq": 3, "all": 4}
 
-def build_impl(ctx, backend="dense", precond="ruiz", scalar="xrat"):
-    d = ["BACKEND=%d" % BACKENDS[backend], "PRECOND=%d" % (0 if precond == "ruiz" else 1), "SCALAR=%d" % (0 if scalar == "xrat" else 1)]
-    return dict(src="drv_solver.cpp", defines=tuple(d), name="drv_%s_%s_%s" % (backend, precond, scalar))
+SCALARS = {"xrat": 0, "double": 1, "float": 2, "longdouble": 3, "mp100": 4}
+
+def build_impl(ctx, backend="dense", precond="ruiz", scalar="xrat", idx="int"):
+    d = ["BACKEND=%d" % BACKENDS[backend], "PRECOND=%d" % (0 if precond == "ruiz" else 1), "SCALAR=%d" % SCALARS[scalar], "IDX=%d" % (0 if idx == "int" else 1)]
+    return dict(src="drv_solver.cpp", defines=tuple(d), name="drv_%s_%s_%s_%s" % (backend, precond, scalar, idx))
 
 def correspond(ctx, name, cases_text, precond="ruiz", backends=("dense",), timeout=600, ignore=("nonfinite", "trace"), only=None, skip=None):
     """run the model and the xrat implementation(s) on the cases; one correspondence obligation per back end.
